@@ -2,6 +2,7 @@ from .common import main_dispatch
 
 REGISTRY = {
     'C01': 'harness.fitkernel',
+    'C02': 'harness.c02',
     'C03': 'harness.fitkernel',
     'C04': 'harness.fitkernel',
     'C05': 'harness.c05',
